@@ -225,12 +225,14 @@ func runR164(c *Ctx) {
 		op := ops[0]
 		// the tracked offset: the field whose value is the offset argument of the toUnvalidated* call that opens a replacement
 		offName := ""
-		allInstrs(fn, func(ins ssa.Instruction) {
-			if cl, ok := ins.(*ssa.Call); ok && cl.Call.IsInvoke() && (cl.Call.Method.Name() == "toUnvalidatedReader" || cl.Call.Method.Name() == "toUnvalidatedChunkReader") {
-				if lf, base := loadedField(cl.Call.Args[0]); lf != nil && base == ssa.Value(fn.Params[0]) {
-					offName = lf.Name()
+		withOwnHelpers(fn, func(g *ssa.Function) {
+			allInstrs(g, func(ins ssa.Instruction) {
+				if cl, ok := ins.(*ssa.Call); ok && cl.Call.IsInvoke() && (cl.Call.Method.Name() == "toUnvalidatedReader" || cl.Call.Method.Name() == "toUnvalidatedChunkReader") {
+					if lf, base := loadedField(cl.Call.Args[0]); lf != nil && isReceiverValue(g, base) {
+						offName = lf.Name()
+					}
 				}
-			}
+			})
 		})
 		if offName == "" {
 			c.Fail(name, "offset-bookkeeping", c.Pos(fn.Pos()), "replacements are not opened at an offset tracked in a field of the reader")
@@ -284,7 +286,7 @@ func runR164(c *Ctx) {
 			return ok
 		}
 		// states: 0 before read; 1 data obtained, not counted; 2 counted; 3 no data on this path (chunk known nil: error edge of chunk reader)
-		explorePaths(&pathSpec{Fn: fn, Init: 0,
+		explorePaths(&pathSpec{Fn: fn, Init: 0, Inline: inlineOwnMethods,
 			Step: func(st int, ev pathEvent) int {
 				if ev.Ins != nil {
 					if ev.Ins == ssa.Instruction(op) {
@@ -382,8 +384,10 @@ func runR164(c *Ctx) {
 			c.Fail(name, "initial-offset", c.Pos(fn.Pos()), "no constructor of "+typ+" found")
 		}
 		// nobody else writes off
+		ownHelpers := map[*ssa.Function]bool{}
+		withOwnHelpers(fn, func(g *ssa.Function) { ownHelpers[g] = true })
 		for _, fs := range fieldStoresIn(c.pkgFuncs(bufferRel), n, offName) {
-			okW := fs.fn == fn || fs.fn.Signature.Recv() == nil
+			okW := fs.fn == fn || fs.fn.Signature.Recv() == nil || ownHelpers[fs.fn]
 			c.Check(okW, FuncName(fs.fn), "off-writer", c.Pos(fs.st.Pos()), "written by Read / the constructor", typ+"."+offName+" is written outside Read and the constructor")
 		}
 	}
